@@ -37,7 +37,7 @@ Definition row_args (s : option subs) (keys : list (tbid * string)) (row : list 
              projection_arg (fwd s bounded) (fwd s (strip_bindings tr)) a
          end) (combine keys row).
 
-(* replace the last segment: new identifier, row prepended to its arguments *)
+(* keep only the last segment: new identifier, row prepended to its arguments *)
 Definition helper_path (idx : nat) (row : list term) (p : term) : term :=
   match p with
   | Node lp segs =>
@@ -47,7 +47,9 @@ Definition helper_path (idx : nat) (row : list term) (p : term) : term :=
             match args with
             | Node la xs => if is_kind "AAngle" la then Node la (row ++ xs) else Node (K "AAngle" "") row
             end in
-          Node lp (init ++ [Node (K "Seg" (helper_ident (ld ls) idx)) [args']])
+          (* the helper trait is named by its identifier alone, whatever path led to the main
+             trait or the type (fix F33) *)
+          Node (K "Path" "") [Node (K "Seg" (helper_ident (ld ls) idx)) [args']]
       | _ => p
       end
   end.
